@@ -85,7 +85,8 @@ def mk_riscv(e, mode="single_stage_pipeline", detect=True, dcache=None, icache=N
         if e.mode == "sym":
             lower.address_range = SymRange(lower.address_range.start, lower.address_range.stop)
     elif mem == "empty":
-        pass
+        if e.mode == "sym":
+            lower.address_range = SymRange(lower.address_range.start, lower.address_range.stop)
     else:
         raise ValueError(mem)
     return c
